@@ -876,6 +876,101 @@ func checkSearchConvention(c *Ctx, r *Rec, info *types.Info, lst *types.Named) {
 			r.ok("D2c-search", construct, c.pos(fd.Pos()), fmt.Sprintf("short-circuits with %v when GetIndex %s, otherwise %v", spec.hitVal, map[bool]string{true: "> 0", false: "== 0"}[spec.hitVal], spec.restVal))
 		}
 	}
+	checkEmptyOperand(c, r, "D2c-empty-operand", info, ms)
+}
+
+// checkEmptyOperand: ContainsAny(empty) is false and ContainsAll(empty) is true.  The method is
+// evaluated for inputs on which no loop body runs (loops over the operand's iterator, over its
+// array view, or counting up to its size); private helpers are interpreted in place with the
+// constants they are called with.
+func checkEmptyOperand(c *Ctx, r *Rec, rule string, info *types.Info, ms map[string]*ast.FuncDecl) {
+	for _, spec := range []struct {
+		name string
+		want bool
+	}{{"ContainsAny", false}, {"ContainsAll", true}} {
+		fd := ms[spec.name]
+		if fd == nil || fd.Body == nil {
+			continue
+		}
+		construct := c.fdName(fd) + "/empty-operand"
+		params := paramObjs(info, fd)
+		if len(params) != 1 {
+			continue
+		}
+		// every loop reachable must be one that an empty operand (and nothing else) keeps from running
+		bad := ""
+		var visit func(d *ast.FuncDecl, depth int)
+		seen := map[*ast.FuncDecl]bool{}
+		visit = func(d *ast.FuncDecl, depth int) {
+			if seen[d] || depth > 3 {
+				return
+			}
+			seen[d] = true
+			ast.Inspect(d.Body, func(x ast.Node) bool {
+				switch l := x.(type) {
+				case *ast.ForStmt:
+					if l.Cond == nil {
+						bad = "a loop without a condition at " + c.pos(l.Pos())
+						return false
+					}
+					if _, mname, _, ok := methodCall(ast.Unparen(l.Cond)); !(ok && mname == "HasNext") {
+						if be, isB := ast.Unparen(l.Cond).(*ast.BinaryExpr); !(isB && (be.Op == token.LSS || be.Op == token.LEQ)) {
+							bad = "a loop whose condition is neither HasNext nor a counting bound at " + c.pos(l.Pos())
+						}
+					}
+					return false // the body does not run
+				case *ast.RangeStmt:
+					return false
+				case *ast.CallExpr:
+					if cf := calleeOf(info, l); cf != nil && !cf.Exported() {
+						if hd := c.declOf(cf); hd != nil && hd.Body != nil && c.infoFor(hd) == info {
+							visit(hd, depth+1)
+						}
+					}
+				}
+				return true
+			})
+		}
+		visit(fd, 0)
+		if bad != "" {
+			r.skip(rule, construct, c.pos(fd.Pos()), "the evaluation for an empty operand needs every loop to be kept from running by it: "+bad)
+			continue
+		}
+		env := &symEnv{info: info, zeroTrip: true}
+		enableInlining(c, env, fd, nil)
+		paths := symRun(env, fd.Body)
+		if len(env.problems) > 0 {
+			r.skip(rule, construct, c.pos(fd.Pos()), "SYM: "+strings.Join(dedup(env.problems), "; "))
+			continue
+		}
+		var viol []string
+		decided := 0
+		for _, p := range paths {
+			if p.Kind != "return" || len(p.Rets) != 1 || p.Rets[0].B == nil {
+				continue
+			}
+			// only paths that are not conditional on anything else: an empty operand reaches them
+			if len(p.Cube) > 0 {
+				continue
+			}
+			decided++
+			want := FFalse
+			if spec.want {
+				want = FTrue
+			}
+			if s, _ := satF(nil, fOrOf(fAndOf(p.Rets[0].B, fNotOf(want)), fAndOf(fNotOf(p.Rets[0].B), want))); s {
+				viol = append(viol, fmt.Sprintf("for an empty operand (no loop body runs) %s returns %v, required %v: %s", spec.name, p.Rets[0], spec.want, map[bool]string{true: "all of no values are contained", false: "none of no values is contained"}[spec.want]))
+			}
+		}
+		switch {
+		case len(viol) > 0:
+			r.fail(rule, construct, c.pos(fd.Pos()), strings.Join(dedup(viol), " | "))
+		case decided == 0:
+			r.skip(rule, construct, c.pos(fd.Pos()), "no unconditional path for an empty operand")
+		default:
+			r.ok(rule, construct, c.pos(fd.Pos()), fmt.Sprintf("with no loop body run the method returns %v", spec.want))
+		}
+	}
 }
 
 // ---------------------------------------------------------------- D4
